@@ -164,7 +164,7 @@ func c06r3(c *an.Ctx) {
 	kinds := kindConsts(c)
 	isPktStream := func(v ssa.Value) bool {
 		p := an.PathOf(v)
-		return len(p.Fields) >= 2 && p.Fields[len(p.Fields)-1].Origin() == idStream.Origin() && p.Fields[len(p.Fields)-2].Name() == "ID"
+		return len(p.Fields) >= 2 && p.Fields[len(p.Fields)-1].Origin() == idStream.Origin() && nameOf(p.Fields[len(p.Fields)-2]) == "ID"
 	}
 	n := 0
 	for _, cs := range an.CallsTo(mr, false, sbufWait) {
